@@ -316,8 +316,10 @@ class MessageManager(ClientLike):
                 self.remove_module(module)
                 return False
 
-            for m in self.modules.values():
-                if m is module:
+            # (a log record published from inside this loop can uncover a dead
+            # subscriber, whose removal changes the module table)
+            for m in list(self.modules.values()):
+                if m is module or self.modules.get(m.conn) is not m:
                     continue
 
                 if m.mod_id == module.mod_id:
